@@ -54,11 +54,15 @@ pub fn family(f: usize) -> Vec<(&'static str, SGeom)> {
             ("rect 1 unit wide at negative x", SGeom::Rect((-3, 0), (-2, 10))),
             ("rect 1 unit tall at negative y", SGeom::Rect((0, -8), (30, -7))),
             ("rect 1 unit wide, corners swapped", SGeom::Rect((-2, 10), (-3, 0))),
+            // the limits of the 32-bit coordinates GDSII can carry
+            ("rect at the lowest coordinates", SGeom::Rect((-2147483648, -2147483648), (-2147483600, -2147483640))),
+            ("rect at the highest coordinates", SGeom::Rect((2147483600, 2147483640), (2147483647, 2147483647))),
         ],
         1 => vec![("L (bbox centre outside)", SGeom::Poly(l.clone())), ("L from the reflex vertex", SGeom::Poly(rotate_cycle(&l, 3))), ("L clockwise", SGeom::Poly(reversed(&l)))],
         2 => vec![("U (bbox centre outside)", SGeom::Poly(u.clone())), ("U from an inner vertex", SGeom::Poly(rotate_cycle(&u, 3))), ("U reversed", SGeom::Poly(reversed(&u)))],
         3 => vec![
             ("right triangle", SGeom::Poly(vec![(0, 0), (40, 0), (0, 40)])),
+            ("right triangle at the lowest x and highest y", SGeom::Poly(vec![(-2147483648, 2147483607), (-2147483608, 2147483607), (-2147483648, 2147483647)])),
             ("diamond", SGeom::Poly(vec![(20, 0), (40, 20), (20, 40), (0, 20)])),
             ("octagon", SGeom::Poly(vec![(10, 0), (30, 0), (40, 10), (40, 30), (30, 40), (10, 40), (0, 30), (0, 10)])),
             ("45-degree chevron (bbox centre outside)", SGeom::Poly(vec![(0, 0), (20, 20), (40, 0), (40, 10), (20, 30), (0, 10)])),
@@ -77,6 +81,7 @@ pub fn family(f: usize) -> Vec<(&'static str, SGeom)> {
         _ => vec![
             ("path 2 segments w4", SGeom::Path(vec![(0, 0), (40, 0), (40, 30)], 4)),
             ("path 1 segment", SGeom::Path(vec![(0, 0), (40, 0)], 4)),
+            ("path from the lowest x", SGeom::Path(vec![(-2147483648, 7), (-2147483600, 7), (-2147483600, 40)], 4)),
             ("path vertical", SGeom::Path(vec![(0, 0), (0, 40)], 4)),
             ("path 3 segments w2", SGeom::Path(vec![(0, 0), (40, 0), (40, 30), (10, 30)], 2)),
             ("path odd width", SGeom::Path(vec![(0, 0), (40, 0)], 3)),
@@ -92,7 +97,7 @@ pub fn family(f: usize) -> Vec<(&'static str, SGeom)> {
     }
 }
 
-const LOCS: [P; 4] = [(300, -200), (0, 0), (-7, 1000), (100000, -100000)];
+const LOCS: [P; 5] = [(300, -200), (0, 0), (-7, 1000), (100000, -100000), (-2147483648, 2147483647)];
 const ORIENT_TAGS: [&str; 8] = ["inst:R0", "inst:R90", "inst:R180", "inst:R270", "inst:MX", "inst:MX-R90", "inst:MX-R180", "inst:MX-R270"];
 const NETS: [Option<&str>; 3] = [None, Some("vdd"), Some("VDD_Core")];
 const NET_TAGS: [&str; 3] = ["net:none", "net:lower-case", "net:Mixed-Case"];
